@@ -322,4 +322,7 @@ func runC19(p *P, r *R) {
 		})
 		r.ob("R19.4", "listener.Close: closes closeCh exactly once (behind CAS(closed,0,1))", p.pos(f.Pos()), ok, true, "")
 	}
+	// R19.5 deadlines behave like a socket's: the per-stream read/write timers behind SetReadDeadline / SetDeadline are
+	// armed before each wait and a fired tick never survives into the next wait (shared with C11 R11.7 / R11.8)
+	borrow(p, r, "C11", runC11, map[string]string{"R11.7": "R19.5", "R11.8": "R19.5"}, func(o Ob) bool { return constructHas(o, "(*Stream)") })
 }
